@@ -230,9 +230,30 @@ class Run:
         if modfile:
             cmd += ["-modfile", modfile]
         cmd += ["./" + pkg if not cwd else "."]
+        nowb = os.environ.get("VERIF_NOWB") == "1"
+        if nowb and tags:
+            cmd[cmd.index("-tags") + 1] = tags + ",verifnowb"
         t = time.time()
         p = subprocess.run(cmd, cwd=(cwd and pkgdir) or REPO, env=e, stdout=subprocess.PIPE,
                            stderr=subprocess.STDOUT, text=True, errors="replace")
+        if p.returncode != 0 and tags and not nowb and ("[build failed]" in p.stdout or "[setup failed]" in p.stdout):
+            # The driver no longer compiles against this tree.  Drivers keep their white-box accessors (unexported
+            # names of go-zero) in files tagged `verif && !verifnowb` with black-box stand-ins under
+            # `verif && verifnowb`: retry once without the white-box part, so that a harmless renaming inside
+            # go-zero degrades the observation instead of breaking the check.
+            first = p.stdout
+            cmd[cmd.index("-tags") + 1] = tags + ",verifnowb"
+            open(out, "w").close()
+            p2 = subprocess.run(cmd, cwd=(cwd and pkgdir) or REPO, env=e, stdout=subprocess.PIPE,
+                                stderr=subprocess.STDOUT, text=True, errors="replace")
+            if "[build failed]" in p2.stdout or "[setup failed]" in p2.stdout:
+                p.stdout = first          # no black-box variant (or it does not build either): report the first failure
+            else:
+                log("  NOTE driver %s -run %s: white-box accessors do not compile against this tree; ran black-box "
+                    "(tag verifnowb)" % (pkg, run))
+                self.extra.setdefault("whitebox_unavailable", []).append(
+                    {"driver": "%s -run %s" % (pkg, run), "build_error": tail(first, 12)})
+                p = p2
         w = time.time() - t
         if p.returncode != 0:
             lp = lib_panic(p.stdout, cwd or REPO)
